@@ -110,19 +110,51 @@ class Findings:
                 self.index[(k, e["clause"])] = e
         self.hits = {}
         self.changed = []
+        self._il = None
+        self.queries = 0
 
-    def match(self, key, clause, sha=None):
-        """A finding matches the exact (key, clause) AND - where recorded - the exact emitted code it was observed on,
-        so the same input failing on DIFFERENT emitted code is reported as a new violation."""
+    def match(self, key, clause, extra=None):
+        """A finding matches the exact (key, clause).  For value findings it must in addition be the SAME defect: the code emitted
+        now for that input has to be semantically equal (IL == IL solver query, robust against re-formulations such as
+        SEQN(2,..) -> SEQ2 or renamed variables) to the code the finding was recorded on - otherwise the same input fails in a
+        different way and is reported as a new violation."""
         e = self.index.get((key, clause))
         if e is None:
             return None
-        want = (e.get("il_sha") or {}).get(key)
-        if want is not None and sha is not None and want != sha:
+        if clause == "value" and extra and extra.get("il") and extra.get("c") and not self.same_defect(key, extra):
             self.changed.append((key, e["id"]))
             return None
         self.hits.setdefault(e["id"], []).append(key)
         return e
+
+    def recorded_il(self, key):
+        if self._il is None:
+            p = os.path.join(VERIF, "baselines", "finding_il", f"{self.prop}.json")
+            try:
+                with open(p) as f:
+                    self._il = json.load(f)
+            except FileNotFoundError:
+                self._il = {}
+        return self._il.get(key)
+
+    def same_defect(self, key, extra):
+        rec = self.recorded_il(key)
+        if rec is None:
+            return True
+        cur = extra["il"]
+        if il_sha({"il": rec}) == il_sha({"il": cur}):
+            return True
+        try:
+            from . import tv, corpus_run
+            from .cref import optable
+            subs, macs, _ = corpus_run.res()
+            il_subs = corpus_run.il_subs(extra.get("fmt") or "READ_STATEMENTS")
+            r = tv.check_il_pair(rec, cur, il_subs, il_subs, optable(extra["c"], [d["code"] for d in subs.values()]),
+                                 tv.Opts(unroll=9, timeout_ms=10000))
+            self.queries += 1
+        except Exception:  # noqa - cannot decide: stay quiet (a known finding is never escalated on doubt)
+            return True
+        return r.verdict not in ("value", "sort", "syntax")
 
 
 # ---------------------------------------------------------------------------------------- report
@@ -161,12 +193,12 @@ class Report:
         for it in self.items:
             if it["status"] != "violation":
                 continue
-            sha = il_sha(it["extra"])
-            hashes[it["key"] + "|" + it["clause"]] = sha
-            e = findings.match(it["key"], it["clause"], sha)
+            if it["clause"] == "value" and it["extra"].get("il"):
+                hashes[it["key"]] = it["extra"]["il"]
+            e = findings.match(it["key"], it["clause"], it["extra"])
             if e is None:
                 if any(k == it["key"] for k, _ in findings.changed):
-                    it["detail"] += " [listed as a known finding, but the emitted code differs from the code the finding was recorded on]"
+                    it["detail"] += " [listed as a known finding, but the code emitted now is not equivalent to the code the finding was recorded on]"
                 new_violations.append(it)
             else:
                 known += 1
@@ -182,7 +214,7 @@ class Report:
             print(f"VIOLATION property={self.prop} replay={path}")
             print(f"  {it['key'][:200]} [{it['clause']}] {it['detail'][:300]}")
             code = 1
-        with open(os.path.join(VERIF, "replays", self.prop, "_last_violation_hashes.json"), "w") as f:
+        with open(os.path.join(VERIF, "replays", self.prop, "_last_violation_il.json"), "w") as f:
             json.dump(hashes, f, indent=0)
         with open(os.path.join(VERIF, "replays", self.prop, "_last_new_violations.json"), "w") as f:
             json.dump([dict(key=it["key"], clause=it["clause"], detail=it["detail"]) for it in new_violations], f, indent=0)
